@@ -74,7 +74,9 @@ def main(argv):
             os._exit(0)
 
     os.makedirs(corpus, exist_ok=True)
-    atheris.Setup([sys.argv[0], f"-runs={runs + 100000}", f"-seed={seed or 1}", "-max_len=8192", "-print_final_stats=0", "-verbosity=1", corpus], one)
+    # -handle_alrm=0: SIGALRM stays with the runner's per-case alarm; -len_control=0: long inputs from the start
+    # (a Hypothesis byte stream shorter than the strategy needs is rejected, not a case)
+    atheris.Setup([sys.argv[0], f"-runs={runs + 100000}", f"-seed={seed or 1}", "-max_len=8192", "-len_control=0", "-handle_alrm=0", "-print_final_stats=0", "-verbosity=1", corpus], one)
     atheris.Fuzz()
 
 
